@@ -18,6 +18,8 @@ from fractions import Fraction
 import numpy as np
 import z3
 
+from .loadscale import scaled
+
 from .ctx import Escape, Violation
 from .encode import Encoder, rv
 from .snum import SNum
@@ -149,7 +151,7 @@ def _z3_to_float(val):
 
 def _base_solver(ctx, enc, timeout_ms):
     s = z3.Solver()
-    s.set('timeout', int(timeout_ms))
+    s.set('timeout', scaled(timeout_ms))
     for name, v in ctx.vars.items():
         if v['kind'] in ('real', 'int'):
             zv = z3.Int(name) if v['kind'] == 'int' else z3.Real(name)
@@ -271,7 +273,7 @@ def check_close(ctx, a, b, tol, label):
     # ---- stage 1: linear abstraction -------------------------------------------------
     t0 = time.time()
     s = z3.Solver()
-    s.set('timeout', int(ctx.opts.get('vc_timeout_ms', 30000)))
+    s.set('timeout', scaled(ctx.opts.get('vc_timeout_ms', 30000)))
     uw = {}
     viol = []
     T = rv(tol)
